@@ -157,11 +157,120 @@ def _threshold_value(case):
     return ("absolute", val)
 
 
-def run(case, j):
-    spec, X, y = case["spec"], case["X"], case["y"]
+def spec_of(est):
+    """{"dir","cls","kw"} description of a live selector (for the reference models)."""
+    cls = type(est).__name__
+    kw = {k: getattr(est, k) for k in ("mixing", "k", "recompute_every") if hasattr(est, k)}
+    return {"dir": getattr(est, "selection_type", "sample"), "cls": cls, "kw": kw}
+
+
+def post_fit_contract(j, est, spec, X, y, seq, evs, n_to_select, Z=None, expect_resolved=None):
+    """State contract evaluated at the exit of a successful fit (cold or warm).
+
+    seq  - indices committed by earlier fits of the same chain (extended in place with this fit's)
+    evs  - GreedyTrace events of this fit.  Returns True when a threshold stop was traced."""
     axis = sel.axis_of(spec)
     N = X.shape[axis]
     n_other = X.shape[1 - axis]
+    Yc = None if y is None else np.asarray(y, dtype=float).reshape(X.shape[0], -1)
+    commits = [e for e in evs if e["ev"] == "commit"]
+    picks = [e for e in evs if e["ev"] == "pick"]
+    stops = [e for e in picks if e["chosen"] is None]
+    seq.extend(e["idx"] for e in commits)
+    stop = bool(stops)
+    E = sel.resolve_n(n_to_select, N)
+    if expect_resolved is not None:
+        j.ok("generator: implied size", E == expect_resolved, (E, expect_resolved))
+
+    ns = int(est.n_selected_)
+    idx = np.asarray(est.selected_idx_)
+    if len(seq) != ns and len(idx) == ns and not stop:
+        # the per-commit wrap point was not driven for every selection (refactored internals): the
+        # private trace only adds observability, the public sequence decides
+        seq[:] = [int(v) for v in idx]
+        j.note("trace_incomplete_public_sequence_used")
+    Xs = np.asarray(est.X_selected_)
+    has_y = hasattr(est, "y_selected_") and Yc is not None and axis == 0
+    nloop = sum(1 for e in picks if e["chosen"] is not None)
+
+    # ---- classifier K1: threshold stop cut selected_idx_/y_selected_ to the loop counter
+    k1 = False
+    if stop and ns == len(seq) and len(idx) != ns:
+        k1 = list(map(int, idx)) == [int(v) for v in seq[:nloop]] and Xs.shape[axis] == ns
+        k1 = k1 and np.array_equal(Xs, np.take(X, seq, axis=axis))
+        if has_y:
+            k1 = k1 and np.array_equal(_col(est.y_selected_), Yc[seq][:nloop])
+    K1 = "K1" if k1 else None
+
+    # ---- reported counts
+    j.ok("n_selected_ counts every commit", ns == len(seq), (ns, len(seq)))
+    j.ok("len(selected_idx_) == n_selected_", len(idx) == ns, {"len": len(idx), "n_selected_": ns, "stop": stop, "nloop": nloop}, K1)
+    j.ok("X_selected_ has n_selected_ items", Xs.ndim == 2 and Xs.shape[axis] == ns and Xs.shape[1 - axis] == n_other, Xs.shape)
+    if not stop:
+        j.ok("n_selected_ == size implied by n_to_select", ns == E, {"n_selected_": ns, "implied": E, "n_to_select": n_to_select})
+    else:
+        j.note("threshold_stops")
+        j.ok("threshold stop gives fewer than implied", ns < E, (ns, E))
+        t_type, t_val = est.score_threshold_type, est.score_threshold
+        first = getattr(est, "first_score_", None)
+
+        def below(s):
+            with np.errstate(all="ignore"):
+                return (s < t_val) if t_type == "absolute" else (s / first < t_val)
+
+        for e in picks:
+            if e["scores"] is None:
+                continue
+            if e["chosen"] is not None:
+                j.ok("kept selection has score >= threshold", not below(e["scores"][e["chosen"]]), (e["scores"][e["chosen"]], t_type, t_val, first))
+            else:
+                j.ok("stop only when best score < threshold", bool(below(np.max(e["scores"]))), (float(np.max(e["scores"])), t_type, t_val, first))
+
+    # ---- the sequence itself
+    j.ok("selected_idx_ is integral", np.issubdtype(idx.dtype, np.integer), str(idx.dtype))
+    j.ok("selected_idx_ == committed picks (in order)", list(map(int, idx)) == [int(v) for v in seq], {"idx": idx, "commits": seq}, K1)
+    j.ok("indices in range", bool(np.all((idx >= 0) & (idx < N))), idx)
+    rep = sel.first_repeat([int(v) for v in seq])
+    if rep is None:
+        j.ok("indices pairwise distinct", True)
+    else:
+        S = [int(v) for v in seq[:rep]]
+        k2 = sel.exhausted(spec, X, y, S)
+        j.ok(
+            "indices pairwise distinct",
+            False,
+            {"repeat": int(seq[rep]), "step": rep, "seq": seq, "exhausted": k2},
+            "K2" if k2 else None,
+        )
+        j.note("repeats_seen")
+
+    # ---- derived views
+    j.ok("X_selected_ == X sliced at the selection (bitwise)", Xs.shape[axis] == len(seq) and np.array_equal(Xs, np.take(X, seq, axis=axis)))
+    if has_y:
+        ys = np.asarray(est.y_selected_)
+        good = ys.shape[0] == len(seq) and np.array_equal(_col(ys), Yc[seq])
+        j.ok("y_selected_ == y sliced at the selection", good, {"shape": ys.shape, "n": len(seq)}, K1)
+    elif hasattr(est, "y_selected_") and Yc is None:
+        j.ok("no y_selected_ without y", False, "y_selected_ present although fitted without y")
+    mask = np.zeros(N, bool)
+    mask[[int(v) for v in idx]] = True
+    sup = np.asarray(est.support_)
+    j.ok("support_ is a bool mask of the selected axis", sup.dtype == bool and sup.shape == (N,), (sup.dtype, sup.shape))
+    j.ok("support_ marks exactly the selected indices", sup.shape == (N,) and np.array_equal(sup, mask))
+    j.ok("get_support() == support_", np.array_equal(np.asarray(est.get_support()), mask))
+    j.ok("get_support(indices=True) sorted", list(est.get_support(indices=True)) == sorted(int(v) for v in idx))
+    j.ok("get_support(indices=True, ordered=True) is the sequence", list(est.get_support(indices=True, ordered=True)) == [int(v) for v in idx])
+    if axis == 1:
+        T = j.lib("transform", est.transform, X)
+        j.ok("transform(X) == X[:, support_]", np.array_equal(T, X[:, mask]))
+        if Z is not None:
+            TZ = j.lib("transform", est.transform, Z)
+            j.ok("transform(Z) == Z[:, support_]", np.array_equal(TZ, Z[:, mask]))
+    return stop
+
+
+def run(case, j):
+    spec, X, y = case["spec"], case["X"], case["y"]
     est = sel.make(spec)
     tr = rt.GreedyTrace(est)
     if tr.missing:
@@ -171,7 +280,6 @@ def run(case, j):
     j.tag(f"{spec['dir']}:{spec['cls']}", f"data:{case['kind']}", f"chain:{len(chain)}", f"thr:{case['threshold']['mode']}")
     seq = []
     any_stop = False
-    Yc = None if y is None else np.asarray(y, dtype=float).reshape(X.shape[0], -1)
     for li, link in enumerate(chain):
         params = {"n_to_select": link["n"]}
         if thr is not None and li == len(chain) - 1:
@@ -183,100 +291,8 @@ def run(case, j):
         j.note("fits")
         if li > 0:
             j.note("warm_links")
-        evs = tr.events[before:]
-        commits = [e for e in evs if e["ev"] == "commit"]
-        picks = [e for e in evs if e["ev"] == "pick"]
-        stops = [e for e in picks if e["chosen"] is None]
-        seq.extend(e["idx"] for e in commits)
-        stop = bool(stops)
-        E = sel.resolve_n(link["n"], N)
-        j.ok("generator: implied size", E == link["resolved"], (E, link))
-
-        ns = int(est.n_selected_)
-        idx = np.asarray(est.selected_idx_)
-        if len(seq) != ns and len(idx) == ns and not stop:
-            # the per-commit wrap point was not driven for every selection (refactored internals): the
-            # private trace only adds observability, the public sequence decides
-            seq = [int(v) for v in idx]
-            j.note("trace_incomplete_public_sequence_used")
-        Xs = np.asarray(est.X_selected_)
-        has_y = hasattr(est, "y_selected_") and Yc is not None and axis == 0
-        nloop = sum(1 for e in picks if e["chosen"] is not None)
-
-        # ---- classifier K1: threshold stop cut selected_idx_/y_selected_ to the loop counter
-        k1 = False
-        if stop and ns == len(seq) and len(idx) != ns:
-            k1 = list(map(int, idx)) == [int(v) for v in seq[:nloop]] and Xs.shape[axis] == ns
-            k1 = k1 and np.array_equal(Xs, np.take(X, seq, axis=axis))
-            if has_y:
-                k1 = k1 and np.array_equal(_col(est.y_selected_), Yc[seq][:nloop])
-        K1 = "K1" if k1 else None
-
-        # ---- reported counts
-        j.ok("n_selected_ counts every commit", ns == len(seq), (ns, len(seq)))
-        j.ok("len(selected_idx_) == n_selected_", len(idx) == ns, {"len": len(idx), "n_selected_": ns, "stop": stop, "nloop": nloop}, K1)
-        j.ok("X_selected_ has n_selected_ items", Xs.ndim == 2 and Xs.shape[axis] == ns and Xs.shape[1 - axis] == n_other, Xs.shape)
-        if not stop:
-            j.ok("n_selected_ == size implied by n_to_select", ns == E, {"n_selected_": ns, "implied": E, "n_to_select": link["n"]})
-        else:
-            any_stop = True
-            j.note("threshold_stops")
-            j.ok("threshold stop gives fewer than implied", ns < E, (ns, E))
-            t_type, t_val = est.score_threshold_type, est.score_threshold
-            first = getattr(est, "first_score_", None)
-
-            def below(s):
-                with np.errstate(all="ignore"):
-                    return (s < t_val) if t_type == "absolute" else (s / first < t_val)
-
-            for e in picks:
-                if e["scores"] is None:
-                    continue
-                if e["chosen"] is not None:
-                    j.ok("kept selection has score >= threshold", not below(e["scores"][e["chosen"]]), (e["scores"][e["chosen"]], t_type, t_val, first))
-                else:
-                    j.ok("stop only when best score < threshold", bool(below(np.max(e["scores"]))), (float(np.max(e["scores"])), t_type, t_val, first))
-
-        # ---- the sequence itself
-        j.ok("selected_idx_ is integral", np.issubdtype(idx.dtype, np.integer), str(idx.dtype))
-        j.ok("selected_idx_ == committed picks (in order)", list(map(int, idx)) == [int(v) for v in seq], {"idx": idx, "commits": seq}, K1)
-        j.ok("indices in range", bool(np.all((idx >= 0) & (idx < N))), idx)
-        rep = sel.first_repeat([int(v) for v in seq])
-        if rep is None:
-            j.ok("indices pairwise distinct", True)
-        else:
-            S = [int(v) for v in seq[:rep]]
-            k2 = sel.exhausted(spec, X, y, S)
-            j.ok(
-                "indices pairwise distinct",
-                False,
-                {"repeat": int(seq[rep]), "step": rep, "seq": seq, "exhausted": k2},
-                "K2" if k2 else None,
-            )
-            j.note("repeats_seen")
-
-        # ---- derived views
-        j.ok("X_selected_ == X sliced at the selection (bitwise)", Xs.shape[axis] == len(seq) and np.array_equal(Xs, np.take(X, seq, axis=axis)))
-        if has_y:
-            ys = np.asarray(est.y_selected_)
-            good = ys.shape[0] == len(seq) and np.array_equal(_col(ys), Yc[seq])
-            j.ok("y_selected_ == y sliced at the selection", good, {"shape": ys.shape, "n": len(seq)}, K1)
-        elif hasattr(est, "y_selected_") and Yc is None:
-            j.ok("no y_selected_ without y", False, "y_selected_ present although fitted without y")
-        mask = np.zeros(N, bool)
-        mask[[int(v) for v in idx]] = True
-        sup = np.asarray(est.support_)
-        j.ok("support_ is a bool mask of the selected axis", sup.dtype == bool and sup.shape == (N,), (sup.dtype, sup.shape))
-        j.ok("support_ marks exactly the selected indices", sup.shape == (N,) and np.array_equal(sup, mask))
-        j.ok("get_support() == support_", np.array_equal(np.asarray(est.get_support()), mask))
-        j.ok("get_support(indices=True) sorted", list(est.get_support(indices=True)) == sorted(int(v) for v in idx))
-        j.ok("get_support(indices=True, ordered=True) is the sequence", list(est.get_support(indices=True, ordered=True)) == [int(v) for v in idx])
-        if axis == 1:
-            T = j.lib("transform", est.transform, X)
-            j.ok("transform(X) == X[:, support_]", np.array_equal(T, X[:, mask]))
-            Z = case["Z"]
-            TZ = j.lib("transform", est.transform, Z)
-            j.ok("transform(Z) == Z[:, support_]", np.array_equal(TZ, Z[:, mask]))
+        stop = post_fit_contract(j, est, spec, X, y, seq, tr.events[before:], link["n"], Z=case["Z"], expect_resolved=link["resolved"])
+        any_stop |= stop
         if stop:
             break  # a later warm link would start from the K1 state
 
@@ -298,3 +314,18 @@ def run(case, j):
         "threshold_stop": any_stop,
         "trace_events": len(tr.events),
     }
+
+
+EXTRA_TIERS = ("quick", "thorough")  # the selector tests take ~5 s under the contract
+
+
+def extra_run(tier):
+    """The repository's own selector tests with the post-fit contract switched on."""
+    from .. import suite
+
+    tests = ["tests/test_feature_simple_fps.py", "tests/test_feature_simple_cur.py", "tests/test_feature_pcov_fps.py", "tests/test_feature_pcov_cur.py", "tests/test_sample_simple_fps.py", "tests/test_sample_pcov_fps.py", "tests/test_sample_pcov_cur.py", "tests/test_voronoi_fps.py", "tests/test_greedy_selector.py", "tests/test_check_estimators.py"]
+    r = suite.run_suite(["selectors"], tests=tests)
+    r["contracts"] = ["selectors"]
+    if not r["inconclusive"] and r["counters"].get("suite:selector_post_fit_contract", 0) < 100:
+        r["inconclusive"].append("fewer than 100 selector fits of the repository's tests were seen by the contract")
+    return r
